@@ -226,9 +226,10 @@ def reproducible(ctx):
     seq = ctx.seq
     out = []
     ref = ctx.post.key()
+    full0 = snapshot.snap(seq, True).key(with_calls=True)
     with warnings.catch_warnings():
         warnings.simplefilter("ignore")
-        for how in ("build", "switch_register", "abstract"):
+        for how in ("build", "switch_register", "switch_device", "abstract"):
             if how == "abstract" and len(ctx.history) >= ABSTRACT_DEPTH["n"]:
                 continue
             try:
@@ -236,6 +237,12 @@ def reproducible(ctx):
                     other = seq.build(**{n: [100] * v.size for n, v in seq.declared_variables.items()})
                 elif how == "switch_register":
                     other = seq.switch_register(ctx.world.register)
+                elif how == "switch_device":
+                    import dataclasses
+
+                    # a renamed but otherwise identical device (the same device returns the sequence itself)
+                    other = seq.switch_device(dataclasses.replace(ctx.world.device, name="W_renamed"), strict=True)
+                    assert other is not seq
                 else:
                     other = Sequence.from_abstract_repr(seq.to_abstract_repr())
             except Exception as e:
@@ -250,7 +257,37 @@ def reproducible(ctx):
             if k1 != k2:
                 d = _diff(ctx.post, s2) if how != "abstract" else "snapshot"
                 out.append((f"C09:copy-differs:{how}:{d}", f"{how}: copy differs in {d}"))
+            # the copy is independent: calls issued on it never reach the original (which received no call)
+            for mut in _copy_mutations(other):
+                try:
+                    mut()
+                except Exception:
+                    pass
+            ctx.act["copies_mutated"] += 1
+            full1 = snapshot.snap(seq, True).key(with_calls=True)
+            if full1 != full0:
+                d = _diff(ctx.post, snapshot.snap(seq, True))
+                out.append((f"C09:calls-on-copy-changed-original:{how}:{d}", f"after calls on the {how} copy the original differs in {d}"))
+                full0 = full1
     return out
+
+
+def _copy_mutations(other):
+    """Successful-looking calls of every kind issued on a copy (each is tried; refusals are irrelevant here)."""
+    from pulser import Pulse
+
+    chans = list(other.declared_channels)
+    muts = [lambda: other.declare_variable("zz_on_copy", dtype=int)]
+    for b in other.get_addressed_bases():
+        muts.append(lambda b=b: other.phase_shift(1.25, basis=b))
+    for c in chans:
+        muts.append(lambda c=c: other.delay(100, c))
+        muts.append(lambda c=c: other.add(Pulse.ConstantPulse(52, 1.0, 0.0, 0.5, post_phase_shift=0.5), c))
+    if len(chans) > 1:
+        muts.append(lambda: other.align(*chans))
+    muts.append(lambda: other.declare_channel("zz_copy_channel", "raman_global"))
+    muts.append(lambda: other.measure(other.get_addressed_bases()[0] if other.get_addressed_bases() else "ground-rydberg"))
+    return muts
 
 
 MONITORS = [atomic, read_only, reproducible]
